@@ -133,14 +133,13 @@ Section LView.
   Definition lview (a : arch) : sview := mk_view a (listed_hunks a).
 End LView.
 
-(* band files lie in their band directory; no BANDHEAD makes Band::open panic *)
+(* band files lie in their band directory *)
 Definition WFbands (a : arch) : Prop :=
   forall n, (get a (PHead n) <> None -> has_dir a (DBand n) = true)
          /\ (get a (PTail n) <> None -> has_dir a (DBand n) = true).
-Definition head_no_panic (a : arch) (n : N) : Prop := get a (PHead n) <> Some (Good (PlHead HvUnparsable)).
-(* no BANDHEAD of a band up to [b] makes Band::open panic *)
-Definition NoPanicUpTo (a : arch) (b : N) : Prop := forall n, n <= b -> head_no_panic a n.
-Definition NoPanicHead (a : arch) : Prop := forall n, head_no_panic a n.
+(* Band::open never panics (an unparsable version is an unsupported version) *)
+Lemma head_status_no_panic r : head_status r <> HPanic.
+Proof. destruct r as [| |[[|[]| | |]| |]| |]; discriminate. Qed.
 
 (* ------------------------------------------------------------------------- *)
 (** * 2. Refinement: the stitched reader computes [stitch_keep] of [lview]    *)
@@ -298,12 +297,11 @@ Section Refine.
 
   (* State::BeforeBand then InBand to the end of the band = [read_band] *)
   Lemma open_band_refines n last acc merr k :
-    head_no_panic a (N.of_nat n) ->
     exists merr',
       evals (open_band keep skT n last acc merr k)
             (k (snd (pread_band keep v n last)) (acc ++ fst (pread_band keep v n last)) merr').
   Proof.
-    intros NP. unfold read_band. rewrite v_opens. unfold open_band.
+    unfold read_band. rewrite v_opens. unfold open_band.
     destruct (head_opens a (N.of_nat n)) eqn:Ho.
     - rewrite (v_hunks n Ho). unfold head_opens in Ho.
       destruct (get a (PHead (N.of_nat n))) as [c|] eqn:G; [|discriminate].
@@ -321,8 +319,7 @@ Section Refine.
     - cbn [fst snd]. rewrite app_nil_r. eexists. apply ev_read; [exact I|]. rewrite reply_read.
       unfold head_opens in Ho. destruct (get a (PHead (N.of_nat n))) as [c|] eqn:G; [|apply ev_refl].
       destruct (head_status (RData c)) eqn:Hs; try discriminate; [apply ev_refl|].
-      exfalso. apply NP. rewrite G. f_equal.
-      destruct c as [[|[]| | |]| |]; try discriminate. reflexivity.
+      exfalso. exact (head_status_no_panic _ Hs).
   Qed.
 
   Lemma after_band_refines n blw last acc merr :
@@ -336,14 +333,13 @@ Section Refine.
 
   (* BeforeBand n ... AfterBand n, given what the search below n does *)
   Lemma visit_refines n (blw : option str -> list entry -> N -> prog sres) (pblw : option str -> list entry) :
-    head_no_panic a (N.of_nat n) ->
     (band_closed v n = false -> forall last acc merr, exists lastf merrf,
         evals (blw last acc merr) (Ret (acc ++ pblw last, None, SDone, lastf, merrf))) ->
     forall last acc merr, exists lastf merrf,
       evals (open_band keep skT n last acc merr (after_band n blw))
             (Ret (acc ++ pvisit_band keep v n last pblw, None, SDone, lastf, merrf)).
   Proof.
-    intros NP Hb last acc merr. destruct (open_band_refines n last acc merr (after_band n blw) NP) as [merr' H1].
+    intros Hb last acc merr. destruct (open_band_refines n last acc merr (after_band n blw)) as [merr' H1].
     unfold visit_band. destruct (pread_band keep v n last) as [out last'] eqn:Er. cbn [fst snd] in H1.
     pose proof (after_band_refines n blw last' (acc ++ out) merr') as H2.
     destruct (band_closed v n).
@@ -354,18 +350,17 @@ Section Refine.
 
   (* previous_existing_band fused with what follows = [stitch_below] *)
   Lemma below_refines n :
-    (forall m, (m < n)%nat -> head_no_panic a (N.of_nat m)) ->
     forall last acc merr, exists lastf merrf,
     evals (below keep skT n last acc merr) (Ret (acc ++ pstitch_below keep v n last, None, SDone, lastf, merrf)).
   Proof.
-    induction n as [|m IH]; intros NP last acc merr; cbn [below stitch_below].
+    induction n as [|m IH]; intros last acc merr; cbn [below stitch_below].
     - exists last, merr. rewrite app_nil_r. apply ev_refl.
     - rewrite v_exists.
       assert (E : meta_is_file (snd (exec_ok pre a (OpMeta (PHead (N.of_nat m))))) = head_present a (N.of_nat m)).
       { rewrite reply_meta. unfold head_present. destruct (get a (PHead (N.of_nat m))); reflexivity. }
-      assert (IH' := IH (fun k Hk => NP k (Nat.lt_lt_succ_r _ _ Hk))).
+      assert (IH' := IH).
       destruct (head_present a (N.of_nat m)).
-      + destruct (visit_refines m (below keep skT m) (pstitch_below keep v m) (NP m (Nat.lt_succ_diag_r m)) (fun _ => IH') last acc merr)
+      + destruct (visit_refines m (below keep skT m) (pstitch_below keep v m) (fun _ => IH') last acc merr)
           as [lastf [merrf H]].
         exists lastf, merrf. apply ev_read; [exact I|]. rewrite E. exact H.
       + destruct (IH' last acc merr) as [lastf [merrf H]]. exists lastf, merrf.
@@ -374,27 +369,26 @@ Section Refine.
 
   (** Stitch::new(n) run to the end = the pure [stitch_keep] of the view *)
   Theorem snext_refines n merr :
-    (forall m, (m <= n)%nat -> head_no_panic a (N.of_nat m)) ->
     exists lastf merrf,
     evals (snext keep skT (SBefore n) None merr)
           (Ret (pstitch_keep keep v n, None, SDone, lastf, merrf)).
   Proof.
-    intros NP. unfold snext, stitch_keep, stitch_from.
-    destruct (visit_refines n (below keep skT n) (pstitch_below keep v n) (NP n (le_n n))
-                (fun _ => below_refines n (fun m Hm => NP m (Nat.lt_le_incl _ _ Hm))) None [] merr)
+    unfold snext, stitch_keep, stitch_from.
+    destruct (visit_refines n (below keep skT n) (pstitch_below keep v n)
+                (fun _ => below_refines n) None [] merr)
       as [lastf [merrf H]].
     exists lastf, merrf. exact H.
   Qed.
 
   (* a closed band: nothing below it is looked at *)
   Theorem snext_refines_closed n merr :
-    head_no_panic a (N.of_nat n) -> band_closed v n = true ->
+    band_closed v n = true ->
     exists lastf merrf,
     evals (snext keep skT (SBefore n) None merr)
           (Ret (pstitch_keep keep v n, None, SDone, lastf, merrf)).
   Proof.
-    intros NP Hc. unfold snext, stitch_keep, stitch_from.
-    destruct (visit_refines n (below keep skT n) (pstitch_below keep v n) NP
+    intros Hc. unfold snext, stitch_keep, stitch_from.
+    destruct (visit_refines n (below keep skT n) (pstitch_below keep v n)
                 (fun H => False_ind _ (eq_true_false_abs _ Hc H)) None [] merr)
       as [lastf [merrf H]].
     exists lastf, merrf. exact H.
@@ -408,18 +402,13 @@ Section ListRefines.
   Definition lfail : lres := {| l_ok := false; l_entries := []; l_merr := 0 |}.
 
   Lemma head_opens_status a b :
-    head_no_panic a b ->
     head_status (snd (exec_ok pre a (OpRead (PHead b)))) = if head_opens a b then HOk else HErr.
   Proof.
-    intros NP. rewrite reply_read. unfold head_opens.
+    rewrite reply_read. unfold head_opens.
     destruct (get a (PHead b)) as [c|] eqn:G; [|reflexivity].
     destruct (head_status (RData c)) eqn:Hs; try reflexivity.
-    exfalso. apply NP. rewrite G. f_equal.
-    destruct c as [[|[]| | |]| |]; try discriminate. reflexivity.
+    exfalso. exact (head_status_no_panic _ Hs).
   Qed.
-
-  Lemma head_opens_no_panic a b : head_opens a b = true -> head_no_panic a b.
-  Proof. unfold head_opens, head_no_panic. intros H E. rewrite E in H. discriminate. Qed.
 
   Lemma list_prog_evals a b (r : sres) :
     get a PHeader = Some (Good PlJson) -> head_opens a b = true ->
@@ -429,7 +418,7 @@ Section ListRefines.
   Proof.
     intros Hh Ho Hs. unfold list_prog. apply ev_read; [exact I|]. rewrite reply_read, Hh.
     unfold open_tree, resolve. apply ev_read; [exact I|].
-    rewrite (head_opens_status a b (head_opens_no_panic a b Ho)), Ho.
+    rewrite (head_opens_status a b), Ho.
     apply (evals_bind pre a _ _ (fun r => let '(es, _, _, _, merr) := r in
              Ret {| l_ok := true; l_entries := es; l_merr := merr |})) in Hs.
     cbn [bind] in Hs. exact Hs.
@@ -437,16 +426,15 @@ Section ListRefines.
 
   (** REFINEMENT (listing view): listing band [b] yields the pure stitch of the view *)
   Theorem list_refines_lview a b :
-    get a PHeader = Some (Good PlJson) -> WFbands a -> NoPanicUpTo a b -> head_opens a b = true ->
+    get a PHeader = Some (Good PlJson) -> WFbands a -> head_opens a b = true ->
     exists tr merr,
       run pre (list_prog (Specified b) keep) a []
       = (tr, a, Done {| l_ok := true;
                         l_entries := pstitch_keep keep (lview pre a) (N.to_nat b);
                         l_merr := merr |}).
   Proof.
-    intros Hh WB NP Ho.
+    intros Hh WB Ho.
     destruct (snext_refines pre keep a WB (N.to_nat b) 0) as [lastf [merrf Hs]].
-    { intros m Hm. apply NP. lia. }
     pose proof (list_prog_evals a b _ Hh Ho Hs) as E. cbv beta iota in E.
     destruct (evals_run_ret pre a _ _ E) as [tr Hr]. exists tr, merrf. exact Hr.
   Qed.
@@ -462,19 +450,18 @@ Section ListRefines.
   Proof.
     intros Hh WB [Ho Hc].
     destruct (snext_refines_closed pre keep a WB (N.to_nat b) 0) as [lastf [merrf Hs]].
-    { rewrite N2Nat.id. apply head_opens_no_panic. exact Ho. }
     { rewrite v_closed by exact WB. rewrite N2Nat.id. exact Hc. }
     pose proof (list_prog_evals a b _ Hh Ho Hs) as E. cbv beta iota in E.
     destruct (evals_run_ret pre a _ _ E) as [tr Hr]. exists tr, merrf. exact Hr.
   Qed.
 
   Theorem list_unopenable a b :
-    get a PHeader = Some (Good PlJson) -> head_no_panic a b -> head_opens a b = false ->
+    get a PHeader = Some (Good PlJson) -> head_opens a b = false ->
     exists tr, run pre (list_prog (Specified b) keep) a [] = (tr, a, Done lfail).
   Proof.
-    intros Hh NP Ho. apply evals_run_ret.
+    intros Hh Ho. apply evals_run_ret.
     unfold list_prog. apply ev_read; [exact I|]. rewrite reply_read, Hh.
-    unfold open_tree, resolve. apply ev_read; [exact I|]. rewrite (head_opens_status a b NP), Ho.
+    unfold open_tree, resolve. apply ev_read; [exact I|]. rewrite (head_opens_status a b), Ho.
     apply ev_refl.
   Qed.
 End ListRefines.
@@ -722,13 +709,13 @@ Section ListRefinesView.
   (** REFINEMENT.  On a well-formed state, without faults, listing band [b] (whose head
       opens) returns exactly the pure stitch of the abstract view of the state. *)
   Theorem list_refines a b :
-    get a PHeader = Some (Good PlJson) -> WFidx a -> NoPanicUpTo a b -> head_opens a b = true ->
+    get a PHeader = Some (Good PlJson) -> WFidx a -> head_opens a b = true ->
     exists tr merr,
       run pre (list_prog (Specified b) keep) a []
       = (tr, a, Done {| l_ok := true; l_entries := pstitch_keep keep (view a) (N.to_nat b); l_merr := merr |}).
   Proof.
-    intros Hh WF NP Ho.
-    destruct (list_refines_lview pre keep a b Hh (WFidx_bands a WF) NP Ho) as [tr [merr H]].
+    intros Hh WF Ho.
+    destruct (list_refines_lview pre keep a b Hh (WFidx_bands a WF) Ho) as [tr [merr H]].
     exists tr, merr. rewrite H, stitch_lview_view by exact WF. reflexivity.
   Qed.
 
@@ -1314,3 +1301,835 @@ Section Stable.
     exists merr. rewrite E, H. reflexivity.
   Qed.
 End Stable.
+
+(* ---- restore ---- *)
+Section RestoreChar.
+  Variable pre : bytes -> N.
+  Variable keep : entry -> bool.
+
+  Lemma run_bind_nil {A B} (p : prog A) (f : A -> prog B) : forall a,
+    run pre (bind p f) a []
+    = match run pre p a [] with
+      | (tr, a', Done r) => (tr ++ fst (fst (run pre (f r) a' [])), snd (fst (run pre (f r) a' [])), snd (run pre (f r) a' []))
+      | (tr, a', Crashed) => (tr, a', Crashed)
+      | (tr, a', Panicked) => (tr, a', Panicked)
+      end.
+  Proof.
+    induction p as [r|o k IH|]; intros a; cbn [bind].
+    - cbn [run app]. apply triple_eta.
+    - rewrite !run_Do. cbn [hdf tl]. rewrite IH.
+      destruct (run pre (k (snd (exec pre a o NoFault))) (fst (exec pre a o NoFault)) []) as [[tr a'] [r| |]];
+        reflexivity.
+    - reflexivity.
+  Qed.
+
+  Lemma list_blocks_r_evals a subs : forall ok k,
+    (forall s, In s subs -> has_dir a (DBlockSub s) = true) ->
+    evals pre a (list_blocks_r subs ok k) (k ok).
+  Proof.
+    induction subs as [|s subs IH]; intros ok k Hs; cbn [list_blocks_r]; [apply ev_refl|].
+    apply ev_read; [exact I|]. rewrite reply_list, (Hs s (or_introl eq_refl)).
+    apply IH. intros s' Hs'. apply Hs. right. exact Hs'.
+  Qed.
+
+  Lemma block_subdir_listed a s :
+    In s (block_subdirs (children_dirs a DBlocks)) -> has_dir a (DBlockSub s) = true.
+  Proof.
+    unfold block_subdirs. rewrite in_isort_N, in_flat_map. intros [d [Hd Hs]].
+    unfold children_dirs in Hd. apply filter_In in Hd. destruct Hd as [Hd _].
+    destruct d; try contradiction. destruct Hs as [->|[]]. apply has_dir_In. exact Hd.
+  Qed.
+
+  (* what restore returns, as a function of what it reads *)
+  Definition restore_result (hdr hd : option fcontent) (dblocks : bool) (sn : outcome sres) : outcome rres :=
+    match hdr with
+    | Some (Good PlJson) =>
+        match head_status (match hd with Some x => RData x | None => RErr ENotFound end) with
+        | HPanic => Panicked
+        | HErr => Done rfail
+        | HOk =>
+            if dblocks then
+              match sn with
+              | Done (es, _, _, _, merr) =>
+                  Done {| r_ok := true; r_files := map restored es;
+                          r_merr := merr + N.of_nat (length (filter (fun e => kind_eqb (e_kind e) KUnknown) es)) |}
+              | Crashed => Crashed
+              | Panicked => Panicked
+              end
+            else Done rfail
+        end
+    | _ => Done rfail
+    end.
+
+  (** Without faults, on a state with referential integrity, restoring band [b] returns, for
+      every entry of the stitched listing, its complete content *)
+  Theorem restore_char a b :
+    AInv a ->
+    snd (run pre (restore_prog (Specified b) keep) a [])
+    = restore_result (get a PHeader) (get a (PHead b)) (has_dir a DBlocks)
+        (snd (run pre (snext keep skT (SBefore (N.to_nat b)) None 0) a [])).
+  Proof.
+    intros HI.
+    set (body := bind (snext keep (fun _ => true) (SBefore (N.to_nat b)) None 0)
+                   (fun r => let '(es, _, _, _, merr) := r in restore_entries es [] [] merr)).
+    assert (E : evals pre a (restore_prog (Specified b) keep)
+      (match get a PHeader with
+       | Some (Good PlJson) =>
+           match head_status (match get a (PHead b) with Some x => RData x | None => RErr ENotFound end) with
+           | HPanic => Panic
+           | HErr => Ret rfail
+           | HOk => if has_dir a DBlocks then body else Ret rfail
+           end
+       | _ => Ret rfail
+       end)).
+    { unfold restore_prog. apply ev_read; [exact I|]. rewrite reply_read.
+      destruct (get a PHeader) as [[[| | | |]| |]|]; try apply ev_refl.
+      unfold open_tree, resolve. apply ev_read; [exact I|]. rewrite reply_read.
+      destruct (head_status (match get a (PHead b) with Some x => RData x | None => RErr ENotFound end));
+        try apply ev_refl.
+      apply ev_read; [exact I|]. rewrite reply_list.
+      destruct (has_dir a DBlocks); [|apply ev_refl].
+      eapply evals_trans; [apply list_blocks_r_evals; intros s Hs; apply block_subdir_listed; exact Hs|].
+      apply ev_refl. }
+    destruct (evals_run pre a _ _ E) as [tr Hr]. rewrite Hr. cbn [snd]. clear E Hr.
+    unfold restore_result.
+    destruct (get a PHeader) as [[[| | | |]| |]|]; try reflexivity.
+    destruct (head_status (match get a (PHead b) with Some x => RData x | None => RErr ENotFound end));
+      try reflexivity.
+    destruct (has_dir a DBlocks); [|reflexivity].
+    unfold body. rewrite run_bind_nil.
+    pose proof (snext_safe pre keep (fun _ => true) a HI (SBefore (N.to_nat b)) None 0 I) as Hsafe.
+    destruct (safe_sound pre _ _ a [] HI Hsafe) as (_ & _ & HQ).
+    unfold skT.
+    destruct (run pre (snext keep (fun _ => true) (SBefore (N.to_nat b)) None 0) a []) as [[tr1 a1] out] eqn:Es.
+    cbn [fst snd] in HQ |- *.
+    destruct out as [[[[[es o] st] last] merr]| |]; try reflexivity.
+    destruct (HQ _ eq_refl) as [-> [Hes _]].
+    destruct (restore_entries_ok pre a es [] [] merr Hes) as (tr2 & r & Hrun & R1 & R2 & R3).
+    { intros h x []. }
+    rewrite Hrun. cbn [snd]. destruct r as [rok rfiles rmerr]. cbn [r_ok r_files r_merr app] in *. subst. reflexivity.
+  Qed.
+End RestoreChar.
+
+Section RestoreStable.
+  Variable pre : bytes -> N.
+  Variables (c : cfg) (src : list sitem).
+  Variable keep : entry -> bool.
+
+  Lemma snext_low_run a0 a b :
+    Frame b a0 a ->
+    snd (run pre (snext keep skT (SBefore (N.to_nat b)) None 0) a [])
+    = snd (run pre (snext keep skT (SBefore (N.to_nat b)) None 0) a0 []).
+  Proof.
+    intros FR. apply (low_run pre b a0 a FR). apply snext_low. rewrite N2Nat.id. lia.
+  Qed.
+
+  (** RESTORE IS STABLE.  From an archive with referential integrity, for every band [b]
+      that exists when a backup starts, at every state of the backup (any source, any
+      faults, any crash point) restoring [b] returns what it returned in the initial
+      state: the same entries, each with the same content. *)
+  Theorem restore_stable a0 b :
+    AInv a0 -> has_dir a0 (DBand b) = true ->
+    forall phi a, In a (backup_states pre c src a0 phi) ->
+      snd (run pre (restore_prog (Specified b) keep) a [])
+      = snd (run pre (restore_prog (Specified b) keep) a0 []).
+  Proof.
+    intros HI Hb phi a Hin.
+    pose proof (backup_states_frame pre c src a0 b phi a Hb Hin) as FR.
+    pose proof (backup_states_ainv pre c src a0 phi a HI Hin) as HIa.
+    rewrite (restore_char pre keep a b HIa), (restore_char pre keep a0 b HI).
+    rewrite (frame_get b a0 a FR PHeader eq_refl).
+    rewrite (frame_get b a0 a FR (PHead b)) by (cbn; apply N.leb_refl).
+    rewrite (frame_has_dir b a0 a FR DBlocks eq_refl).
+    rewrite (snext_low_run a0 a b FR). reflexivity.
+  Qed.
+
+  (** C02/C03, restore side, as specified: a complete band of a well-formed archive with
+      referential integrity restores, after (and during) any later backup, exactly as
+      before: every entry of its own index, each file with its complete content. *)
+  Theorem complete_band_restore_stable a0 b :
+    get a0 PHeader = Some (Good PlJson) -> has_dir a0 DBlocks = true ->
+    WFidx a0 -> AInv a0 -> complete a0 b ->
+    forall phi a, In a (backup_states pre c src a0 phi) ->
+      snd (run pre (restore_prog (Specified b) keep) a [])
+      = snd (run pre (restore_prog (Specified b) keep) a0 [])
+      /\ exists merr,
+           snd (run pre (restore_prog (Specified b) keep) a [])
+           = Done {| r_ok := true; r_files := map restored (filter keep (band_entries a0 b)); r_merr := merr |}.
+  Proof.
+    intros Hh Hbl WF HI Hc phi a Hin.
+    pose proof (complete_has_dir a0 b (WFidx_bands a0 WF) (proj1 Hc)) as Hb.
+    pose proof (restore_stable a0 b HI Hb phi a Hin) as E. split; [exact E|].
+    rewrite E, (restore_char pre keep a0 b HI), Hh, Hbl. unfold restore_result.
+    destruct Hc as [Ho Hcl].
+    assert (Hs : head_status (match get a0 (PHead b) with Some x => RData x | None => RErr ENotFound end) = HOk).
+    { unfold head_opens in Ho. destruct (get a0 (PHead b)) as [x|]; [|discriminate].
+      destruct (head_status (RData x)); [reflexivity | discriminate | discriminate]. }
+    rewrite Hs.
+    destruct (snext_refines_closed pre keep a0 (WFidx_bands a0 WF) (N.to_nat b) 0) as [lastf [merrf Hev]].
+    { rewrite v_closed by (apply WFidx_bands; exact WF). rewrite N2Nat.id. exact Hcl. }
+    destruct (evals_run_ret pre a0 _ _ Hev) as [tr Hr]. rewrite Hr. cbn [snd].
+    rewrite (stitch_lview_view pre keep a0 _ WF), (stitch_view_complete keep a0 b (WFidx_bands a0 WF) (conj Ho Hcl)).
+    eexists. reflexivity.
+  Qed.
+End RestoreStable.
+
+(* ------------------------------------------------------------------------- *)
+(** * 7. LatestClosed resolves to the newest closed band                      *)
+(* ------------------------------------------------------------------------- *)
+
+Lemma SS_rev {A} (R : A -> A -> Prop) l :
+  StronglySorted R l -> StronglySorted (fun x y => R y x) (rev l).
+Proof.
+  induction 1 as [|x l S IH F]; cbn [rev]; [constructor|].
+  apply SS_app; [exact IH | repeat constructor|].
+  intros y z Hy [<-|[]]. rewrite Forall_forall in F. apply F. apply in_rev. exact Hy.
+Qed.
+
+Lemma find_first_sorted {A} (R : A -> A -> Prop) (p : A -> bool) l x :
+  StronglySorted R l -> find p l = Some x -> forall y, In y l -> p y = true -> y = x \/ R x y.
+Proof.
+  induction 1 as [|z l S IH F]; cbn [find]; [discriminate|].
+  destruct (p z) eqn:Pz.
+  - intros E y [<-|Hy] _; inversion E; subst; [left; reflexivity|].
+    right. rewrite Forall_forall in F. apply F. exact Hy.
+  - intros E y [<-|Hy] Py; [congruence|]. apply IH; assumption.
+Qed.
+
+Section LatestClosed.
+  Variable pre : bytes -> N.
+  Variable a : arch.
+  Context {R : Type}.
+
+  Lemma last_complete_evals ids : forall (k : option N -> prog R),
+    (forall b, In b ids -> head_opens a b = true) ->
+    evals pre a (last_complete ids k) (k (find (tail_closed a) ids)).
+  Proof.
+    induction ids as [|b ids IH]; intros k Ho; cbn [last_complete find]; [apply ev_refl|].
+    pose proof (Ho b (or_introl eq_refl)) as Hb.
+    apply ev_read; [exact I|].
+    rewrite (head_opens_status pre a b), Hb.
+    apply ev_read; [exact I|]. rewrite reply_meta. unfold tail_closed.
+    destruct (get a (PTail b)) as [x|].
+    - destruct (nonempty x); [apply ev_refl|]. apply IH. intros b' Hb'. apply Ho. right. exact Hb'.
+    - apply IH. intros b' Hb'. apply Ho. right. exact Hb'.
+  Qed.
+
+  Lemma root_band_ids b : In b (band_ids (children_dirs a DRoot)) <-> has_dir a (DBand b) = true.
+  Proof.
+    unfold band_ids. rewrite in_flat_map. split.
+    - intros [d [Hd Hb]]. unfold children_dirs in Hd. apply filter_In in Hd. destruct Hd as [Hd _].
+      destruct d; try contradiction. destruct Hb as [->|[]]. apply has_dir_In. exact Hd.
+    - intros Hd. exists (DBand b). split; [|left; reflexivity].
+      unfold children_dirs. apply filter_In. split; [apply has_dir_In; exact Hd | reflexivity].
+  Qed.
+
+  (** Without faults, when the head of every band opens, [LatestClosed] resolves to the
+      largest band id whose tail exists and is not zero-length; to nothing iff there is none *)
+  Theorem latest_closed_is_newest (k : option N -> prog R) :
+    has_dir a DRoot = true ->
+    (forall b, has_dir a (DBand b) = true -> head_opens a b = true) ->
+    exists o,
+      evals pre a (resolve LatestClosed k) (k o)
+      /\ match o with
+         | Some b => has_dir a (DBand b) = true /\ tail_closed a b = true
+                     /\ forall b', has_dir a (DBand b') = true -> tail_closed a b' = true -> b' <= b
+         | None => forall b', has_dir a (DBand b') = true -> tail_closed a b' = false
+         end.
+  Proof.
+    intros Hroot Ho.
+    set (ids := rev (sorted_N (band_ids (children_dirs a DRoot)))).
+    assert (Hin : forall b, In b ids <-> has_dir a (DBand b) = true).
+    { intros b. unfold ids, sorted_N. rewrite <- in_rev, in_isort_N. apply root_band_ids. }
+    exists (find (tail_closed a) ids). split.
+    - unfold resolve. apply ev_read; [exact I|]. rewrite reply_list, Hroot.
+      apply last_complete_evals. intros b Hb. apply Ho. apply Hin. exact Hb.
+    - destruct (find (tail_closed a) ids) as [b|] eqn:Ef.
+      + destruct (find_some _ _ Ef) as [Hb Hc]. split; [apply Hin; exact Hb|]. split; [exact Hc|].
+        intros b' Hb' Hc'.
+        assert (S : StronglySorted (fun x y => N.compare y x <> Gt) ids).
+        { unfold ids, sorted_N. apply SS_rev. apply (isort_sorted N.compare (fun x : N => x) N_order). }
+        destruct (find_first_sorted _ _ _ _ S Ef b' (proj2 (Hin b') Hb') Hc') as [->|Hle]; [lia|].
+        apply N.compare_le_iff. exact Hle.
+      + intros b' Hb'. apply (find_none _ _ Ef). apply Hin. exact Hb'.
+  Qed.
+End LatestClosed.
+
+(* ------------------------------------------------------------------------- *)
+(** * 8. C14: a block that is present is never written again                  *)
+(* ------------------------------------------------------------------------- *)
+
+Section Wps.
+  Variable pre : bytes -> N.
+  Variable Pre : arch -> op -> Prop.
+
+  (* weakest precondition with a precondition on every operation issued, in the state it
+     is issued in, for every fault *)
+  Fixpoint wps {R} (Q : R -> arch -> Prop) (p : prog R) (a : arch) : Prop :=
+    match p with
+    | Ret r => Q r a
+    | Panic => True
+    | Do o k => Pre a o /\ forall f, wps Q (k (snd (exec pre a o f))) (fst (exec pre a o f))
+    end.
+
+  Lemma wps_weaken {R} (Q Q' : R -> arch -> Prop) (p : prog R) :
+    (forall r a, Q r a -> Q' r a) -> forall a, wps Q p a -> wps Q' p a.
+  Proof.
+    intros HQ. induction p as [r|o k IH|]; intros a H; cbn [wps] in *; auto.
+    destruct H as [H1 H2]. split; [exact H1|]. intros f. apply IH. apply H2.
+  Qed.
+
+  Lemma wps_bind {A B} (Q : A -> arch -> Prop) (Q' : B -> arch -> Prop) (p : prog A) (g : A -> prog B) :
+    (forall r a, Q r a -> wps Q' (g r) a) -> forall a, wps Q p a -> wps Q' (bind p g) a.
+  Proof.
+    intros Hg. induction p as [r|o k IH|]; intros a H; cbn [wps bind] in *; auto.
+    destruct H as [H1 H2]. split; [exact H1|]. intros f. apply IH. apply H2.
+  Qed.
+
+  (* soundness: every operation of every run was issued in a state satisfying [Pre] *)
+  Lemma wps_sound {R} (Q : R -> arch -> Prop) (p : prog R) : forall a phi i o rep,
+    wps Q p a ->
+    nth_error (fst (fst (run pre p a phi))) i = Some (o, rep) ->
+    exists ab, state_before pre p a phi i = Some ab /\ Pre ab o.
+  Proof.
+    induction p as [r|o k IH|]; intros a phi i o' rep H Hi; try (cbn in Hi; destruct i; discriminate).
+    cbn [wps] in H. destruct H as [H1 H2]. destruct i as [|i].
+    - pose proof (trace_0 pre _ _ _ _ _ Hi) as E. inversion E; subst. exists a. split; [reflexivity | exact H1].
+    - destruct (state_before_S pre _ _ _ _ _ _ Hi) as [Hi' Hs]. rewrite Hs. eapply IH; [apply H2 | exact Hi'].
+  Qed.
+
+  Hypothesis PreRead : forall a o, reads_only o -> Pre a o.
+
+  Lemma wps_reads {R} (Q : R -> arch -> Prop) (p : prog R) a :
+    emits_only reads_only p -> (forall r, Q r a) -> wps Q p a.
+  Proof.
+    intros H HQ. induction H as [r| |o k Ho _ IH]; cbn [wps]; auto.
+    split; [apply PreRead; exact Ho|]. intros f. rewrite (exec_read_same pre a o f Ho). apply IH.
+  Qed.
+
+  Lemma wps_read {R} (Q : R -> arch -> Prop) o (k : reply -> prog R) a :
+    reads_only o -> (forall f, wps Q (k (snd (exec pre a o f))) a) -> wps Q (Do o k) a.
+  Proof.
+    intros Ho Hk. cbn [wps]. split; [apply PreRead; exact Ho|].
+    intros f. rewrite (exec_read_same pre a o f Ho). apply Hk.
+  Qed.
+End Wps.
+
+(* how an operation can make a block present *)
+Lemma exec_block_ok pre (a : arch) o flt c :
+  block_ok (fst (exec pre a o flt)) c ->
+  block_ok a c \/ (exists p m, o = OpWrite (PBlock c) p m /\ snd (exec pre a o flt) = ROk).
+Proof.
+  unfold block_ok.
+  assert (Hok : get (fst (exec_ok pre a o)) (PBlock c) = Some (Good (PlBlock c)) ->
+                get a (PBlock c) = Some (Good (PlBlock c))
+                \/ (exists p m, o = OpWrite (PBlock c) p m /\ snd (exec_ok pre a o) = ROk)).
+  { destruct o as [f|f p m|d|d|f|f|d]; cbn [exec_ok].
+    - destruct (get a f); auto.
+    - destruct (has_dir a (parent_f pre f)); [|auto].
+      assert (Hset : get {| dirs := dirs a; files := set_file f (Good p) (files a) |} (PBlock c) = Some (Good (PlBlock c)) ->
+                     get a (PBlock c) = Some (Good (PlBlock c)) \/ f = PBlock c).
+      { unfold get. cbn [files]. rewrite lookup_set_file.
+        destruct (fpath_eqb_spec (PBlock c) f) as [<-|]; auto. }
+      destruct (get a f) as [[q| |]|]; destruct m; cbn [fst snd]; auto;
+        (intros H; destruct (Hset H) as [H' | -> ]; [left; exact H' | right; eauto]).
+    - destruct (has_dir a d); auto.
+    - destruct (has_dir a d); [auto|].
+      destruct (parent_d d) as [q|]; [destruct (has_dir a q)|]; cbn [fst]; auto.
+    - destruct (get a f); auto.
+    - destruct (get a f); [|auto]. cbn [fst]. unfold get. cbn [files]. rewrite lookup_remove_file.
+      destruct (fpath_eqb (PBlock c) f); [discriminate | auto].
+    - destruct (has_dir a d); [|auto]. cbn [fst]. unfold get. cbn [files].
+      change (fun p : fpath * fcontent => negb (file_under pre d (fst p)))
+        with (fun p : fpath * fcontent => (fun g => negb (file_under pre d g)) (fst p)).
+      rewrite lookup_filter. destruct (negb (file_under pre d (PBlock c))); [auto | discriminate]. }
+  destruct flt; cbn [exec fst snd]; auto.
+Qed.
+
+Definition is_block_write (o : op) : Prop := match o with OpWrite (PBlock _) _ _ => True | _ => False end.
+
+Lemma exec_block_ok_other pre (a : arch) o flt c :
+  ~ is_block_write o -> block_ok (fst (exec pre a o flt)) c -> block_ok a c.
+Proof.
+  intros Hn H. destruct (exec_block_ok pre a o flt c H) as [H'|[p [m [-> _]]]]; [exact H'|].
+  exfalso. apply Hn. exact I.
+Qed.
+
+(* a block file lies in its sub-directory *)
+Definition BlocksInDirs (pre : bytes -> N) (a : arch) : Prop :=
+  forall c, get a (PBlock c) <> None -> has_dir a (DBlockSub (pre c)) = true.
+
+Section NeverRewrites.
+  Variable pre : bytes -> N.
+
+  (* never issue a write of a block that is there *)
+  Definition NRPre (a : arch) (o : op) : Prop :=
+    match o with OpWrite (PBlock c) _ _ => ~ block_ok a c | _ => True end.
+
+  Lemma NRPre_read a o : reads_only o -> NRPre a o.
+  Proof. destruct o; cbn; tauto. Qed.
+
+  Notation wps := (wps pre NRPre).
+
+  (* the writer knows every block that is present *)
+  Definition KN (a : arch) (w : wst) : Prop := forall c, block_ok a c -> mem_bytes c (w_exists w) = true.
+  Definition KQ {A} (rw : A * wst) (a : arch) : Prop := KN a (snd rw).
+
+  Lemma KN_ext a w w' : w_exists w' = w_exists w -> KN a w -> KN a w'.
+  Proof. intros E H c Hc. rewrite E. apply H. exact Hc. Qed.
+
+  Lemma KN_step a w o flt : ~ is_block_write o -> KN a w -> KN (fst (exec pre a o flt)) w.
+  Proof. intros Hn H c Hc. apply H. eapply exec_block_ok_other; eassumption. Qed.
+
+  Lemma mem_bytes_cons c d l : mem_bytes c (d :: l) = str_eqb c d || mem_bytes c l.
+  Proof. reflexivity. Qed.
+
+  Lemma store_block_wps w c a : KN a w -> wps KQ (store_block pre w c) a.
+  Proof.
+    intros HK. unfold store_block. destruct (mem_bytes c (w_exists w)) eqn:Em; [exact HK|].
+    cbn [FrameP.wps]. split; [exact I|]. intros f1.
+    pose proof (KN_step a w (OpMkdir (DBlockSub (pre c))) f1 (fun x => x) HK) as HK1.
+    destruct (is_ok (snd (exec pre a (OpMkdir (DBlockSub (pre c))) f1))); [|exact HK1].
+    cbn [FrameP.wps]. split.
+    - cbn [NRPre]. intros Hc. rewrite (HK1 c Hc) in Em. discriminate.
+    - intros f2. set (a1 := fst (exec pre a (OpMkdir (DBlockSub (pre c))) f1)) in *.
+      destruct (is_ok (snd (exec pre a1 (OpWrite (PBlock c) (PlBlock c) CreateNew) f2))) eqn:Eok;
+        cbn [FrameP.wps]; unfold KQ; cbn [snd]; intros c' Hc';
+        destruct (exec_block_ok pre a1 _ f2 c' Hc') as [H|[p [m [E Er]]]].
+      + cbn [upd_blocks w_exists]. rewrite mem_bytes_cons, (HK1 c' H). apply orb_true_r.
+      + inversion E; subst. cbn [upd_blocks w_exists]. rewrite mem_bytes_cons, str_eqb_refl. reflexivity.
+      + apply HK1. exact H.
+      + rewrite Er in Eok. discriminate.
+  Qed.
+
+  Lemma comb_flush_wps w a : KN a w -> wps KQ (comb_flush pre w) a.
+  Proof.
+    intros HK. unfold comb_flush. destruct (w_queue w) as [|q0 q]; [exact HK|].
+    eapply wps_bind; [|apply store_block_wps; eapply KN_ext; [|exact HK]; reflexivity].
+    intros [ok w'] a' HK'. unfold KQ in HK'. cbn [snd] in HK'.
+    destruct ok; cbn [FrameP.wps]; unfold KQ; cbn [snd]; [|exact HK'].
+    eapply KN_ext; [|exact HK']. reflexivity.
+  Qed.
+
+  Lemma comb_push_wps c w e data a : KN a w -> wps KQ (comb_push pre c w e data) a.
+  Proof.
+    intros HK. unfold comb_push. destruct data as [|x data].
+    - cbn [FrameP.wps]. unfold KQ. cbn [snd]. eapply KN_ext; [|exact HK]. reflexivity.
+    - match goal with |- wps _ (if ?x then _ else _) _ => destruct x end.
+      + apply comb_flush_wps. eapply KN_ext; [|exact HK]. reflexivity.
+      + cbn [FrameP.wps]. unfold KQ. cbn [snd]. eapply KN_ext; [|exact HK]. reflexivity.
+  Qed.
+
+  Lemma finish_hunk_wps w a : KN a w -> wps KQ (finish_hunk w) a.
+  Proof.
+    intros HK. unfold finish_hunk. destruct (w_entries w) as [|e0 es]; [exact HK|].
+    assert (Hw : forall a1, KN a1 w ->
+      wps KQ (Do (OpWrite (PHunk (w_band w) (w_seq w)) (PlHunk (sort_entries (e0 :: es))) CreateNew)
+                (fun r => if is_ok r then Ret (true, upd_index w [] (w_seq w + 1) (w_hunks w + 1)) else Ret (false, w))) a1).
+    { intros a1 HK1. cbn [FrameP.wps]. split; [exact I|]. intros f.
+      pose proof (KN_step a1 w (OpWrite (PHunk (w_band w) (w_seq w)) (PlHunk (sort_entries (e0 :: es))) CreateNew) f (fun x => x) HK1) as HK2.
+      destruct (is_ok _); cbn [FrameP.wps]; unfold KQ; cbn [snd]; [|exact HK2].
+      eapply KN_ext; [|exact HK2]. reflexivity. }
+    destruct (w_seq w mod HUNKS_PER_SUBDIR =? 0); [|apply Hw; exact HK].
+    cbn [FrameP.wps]. split; [exact I|]. intros f.
+    pose proof (KN_step a w (OpMkdir (DHunkSub (w_band w) (w_seq w / HUNKS_PER_SUBDIR))) f (fun x => x) HK) as HK1.
+    destruct (is_ok _); [apply Hw; exact HK1 | exact HK1].
+  Qed.
+
+  Lemma flush_group_wps w a : KN a w -> wps KQ (flush_group pre w) a.
+  Proof.
+    intros HK. unfold flush_group. eapply wps_bind; [|apply comb_flush_wps; exact HK].
+    intros [ok w1] a1 HK1. unfold KQ in HK1. cbn [snd] in HK1.
+    destruct ok; [|exact HK1]. apply finish_hunk_wps. eapply KN_ext; [|exact HK1]. reflexivity.
+  Qed.
+
+  Lemma store_chunks_wps cs : forall w acc a, KN a w -> wps KQ (store_chunks pre w cs acc) a.
+  Proof.
+    induction cs as [|c cs IH]; intros w acc a HK; cbn [store_chunks]; [exact HK|].
+    eapply wps_bind; [|apply store_block_wps; exact HK].
+    intros [ok w'] a' HK'. unfold KQ in HK'. cbn [snd] in HK'.
+    destruct ok; [apply IH; exact HK' | exact HK'].
+  Qed.
+
+  Lemma copy_entry_wps c w basis it a : KN a w -> wps KQ (copy_entry pre c w basis it) a.
+  Proof.
+    intros HK. unfold copy_entry.
+    assert (Hpush : forall e, KN a (push_entry w e)) by (intros e; eapply KN_ext; [|exact HK]; reflexivity).
+    destruct (s_kind (si_e it)); try (cbn [FrameP.wps]; unfold KQ; cbn [snd]; auto; fail).
+    match goal with |- wps _ (match ?x with _ => _ end) _ => destruct x end; [apply Hpush|].
+    destruct (s_size (si_e it) =? 0); [apply Hpush|].
+    destruct (s_size (si_e it) <=? c_sfc c); [apply comb_push_wps; exact HK|].
+    eapply wps_bind; [|apply store_chunks_wps; exact HK].
+    intros [o w'] a' HK'. unfold KQ in HK'. cbn [snd] in HK'.
+    destruct o; cbn [FrameP.wps]; unfold KQ; cbn [snd]; [|exact HK'].
+    eapply KN_ext; [|exact HK']. reflexivity.
+  Qed.
+
+  Definition QT' (_ : bres) (_ : arch) : Prop := True.
+
+  Lemma snext_wps keep skip st last merr a (Q : sres -> arch -> Prop) :
+    (forall r, Q r a) -> wps Q (snext keep skip st last merr) a.
+  Proof. intros HQ. apply wps_reads; [apply NRPre_read | apply snext_eo; auto | exact HQ]. Qed.
+
+  Lemma merge_loop_wps c src : forall peek st last w a,
+    KN a w -> wps QT' (merge_loop pre c src peek st last w) a.
+  Proof.
+    induction src as [|it src IH]; intros peek st last w a HK; cbn [merge_loop].
+    - eapply wps_bind; [|apply (snext_wps _ _ _ _ _ a (fun _ a' => a' = a)); reflexivity].
+      intros [[[[skipped na] st'] last'] merr] a' ->.
+      eapply wps_bind; [|apply flush_group_wps; eapply KN_ext; [|exact HK]; reflexivity].
+      intros [ok w2] a2 _. destruct ok; [|exact I].
+      cbn [FrameP.wps]. split; [exact I|]. intros f. destruct (is_ok _); exact I.
+    - assert (Hk : forall (skipped : list entry) na st' last' merr,
+        wps QT'
+          (let w0 := upd_counts w (w_errors w) merr (w_deleted w + N.of_nat (length skipped)) in
+           let '(basis, na') :=
+             match na with
+             | Some e => match apath_cmp (e_apath e) (s_apath (si_e it)) with
+                         | Eq => (Some e, None) | _ => (None, na) end
+             | None => (None, None)
+             end in
+           bind (copy_entry pre c w0 basis it) (fun rw =>
+             let '(ok, w1) := rw in
+             let w2 := if ok then w1 else upd_counts w1 (w_errors w1 + 1) (w_merr w1 + 1) (w_deleted w1) in
+             if ok && (c_meph c <=? N.of_nat (length (w_entries w2)) + N.of_nat (length (w_queue w2))) then
+               bind (flush_group pre w2) (fun rw2 =>
+                 let '(ok2, w3) := rw2 in
+                 if ok2 then merge_loop pre c src na' st' last' w3 else Ret (fail w3))
+             else merge_loop pre c src na' st' last' w2)) a).
+      { intros skipped na st' last' merr. cbv zeta.
+        match goal with |- wps _ (let '(_, _) := ?x in _) _ => destruct x as [basis na'] end.
+        eapply wps_bind; [|apply copy_entry_wps; eapply KN_ext; [|exact HK]; reflexivity].
+        intros [ok w1] a1 HK1. unfold KQ in HK1. cbn [snd] in HK1.
+        assert (HK2 : KN a1 (if ok then w1 else upd_counts w1 (w_errors w1 + 1) (w_merr w1 + 1) (w_deleted w1)))
+          by (destruct ok; [exact HK1 | eapply KN_ext; [|exact HK1]; reflexivity]).
+        match goal with |- wps _ (if ?x then _ else _) _ => destruct x end.
+        - eapply wps_bind; [|apply flush_group_wps; exact HK2].
+          intros [ok2 w3] a3 HK3. unfold KQ in HK3. cbn [snd] in HK3.
+          destruct ok2; [apply IH; exact HK3 | exact I].
+        - apply IH. exact HK2. }
+      destruct peek as [e|].
+      + match goal with |- wps _ (if ?x then _ else _) _ => destruct x end.
+        * eapply wps_bind; [|apply (snext_wps _ _ _ _ _ a (fun _ a' => a' = a)); reflexivity].
+          intros [[[[skipped na] st'] last'] merr] a' ->. apply Hk.
+        * exact (Hk [] (Some e) st last (w_merr w)).
+      + eapply wps_bind; [|apply (snext_wps _ _ _ _ _ a (fun _ a' => a' = a)); reflexivity].
+        intros [[[[skipped na] st'] last'] merr] a' ->. apply Hk.
+  Qed.
+
+  Definition listed_blocks (fs : list (fpath * bool)) : list bytes :=
+    flat_map (fun p => match p with (PBlock c, true) => [c] | _ => [] end) fs.
+
+  Lemma block_ok_listed a c : block_ok a c -> In c (listed_blocks (children_files pre a (DBlockSub (pre c)))).
+  Proof.
+    intros Hc. unfold block_ok, get in Hc. destruct (lookup_Some_In _ _ _ Hc) as [g [Hin [<- _]]].
+    unfold listed_blocks. apply in_flat_map. exists (PBlock c, true). split; [|left; reflexivity].
+    unfold children_files. apply in_map_iff. exists (PBlock c, Good (PlBlock c)). split; [reflexivity|].
+    apply filter_In. split; [exact Hin|]. cbn [fst parent_f].
+    destruct (dpath_eqb_spec (DBlockSub (pre c)) (DBlockSub (pre c))); congruence.
+  Qed.
+
+  Lemma list_blocks_wps subs : forall acc failed k a,
+    wps QT' (k None) a ->
+    (failed = false -> forall ex,
+       (forall c, block_ok a c -> In c acc \/ In (pre c) subs -> In c ex) -> wps QT' (k (Some ex)) a) ->
+    wps QT' (list_blocks subs acc failed k) a.
+  Proof.
+    induction subs as [|s subs IH]; intros acc failed k a HN HS; cbn [list_blocks].
+    - destruct failed; [exact HN|]. apply HS; [reflexivity|]. intros c _ [H|[]]. exact H.
+    - apply wps_read; [apply NRPre_read | exact I|]. intros f.
+      destruct (snd (exec pre a (OpList (DBlockSub s)) f)) as [| | |ds fs|] eqn:Er;
+        try (apply IH; [exact HN | discriminate]).
+      apply IH; [exact HN|]. intros Hf ex Hex. apply HS; [exact Hf|].
+      intros c Hc [H|[E|H]]; [| subst s |]; apply Hex; auto.
+      + left. apply in_or_app. left. exact H.
+      + left. apply in_or_app. right.
+        pose proof (exec_read_reply pre a (OpList (DBlockSub (pre c))) f I) as Hr.
+        rewrite Er in Hr. cbn [reply_ok] in Hr. subst fs. apply block_ok_listed. exact Hc.
+  Qed.
+
+  Lemma In_mem_bytes c l : In c l -> mem_bytes c l = true.
+  Proof.
+    intros H. unfold mem_bytes. apply existsb_exists. exists c. split; [exact H | apply str_eqb_refl].
+  Qed.
+
+  (* before the block listing: nothing has made a block present, nothing has been removed *)
+  Definition PJ (a0 a : arch) : Prop := (forall c, block_ok a c -> block_ok a0 c) /\ Old a0 a.
+
+  Lemma PJ_step a0 a o flt : add_only o -> ~ is_block_write o -> PJ a0 a -> PJ a0 (fst (exec pre a o flt)).
+  Proof.
+    intros Ho Hn [H1 H2]. split.
+    - intros c Hc. apply H1. eapply exec_block_ok_other; eassumption.
+    - eapply Old_trans; [exact H2 | apply exec_add_Old; exact Ho].
+  Qed.
+
+  Lemma backup_wps c src a0 : BlocksInDirs pre a0 -> wps QT' (backup_prog pre c src) a0.
+  Proof.
+    intros BD. unfold backup_prog, open_archive.
+    assert (HJ0 : PJ a0 a0) by (split; [auto | apply Old_refl]).
+    revert HJ0. generalize a0 at 2 3 as a. intros a HJ.
+    apply wps_read; [apply NRPre_read | exact I|]. intros f0.
+    destruct (snd (exec pre a (OpRead PHeader) f0)) as [| |[[| | | |]| |]| |]; try exact I.
+    apply wps_read; [apply NRPre_read | exact I|]. intros f1.
+    destruct (snd (exec pre a (OpMeta PLock) f1)) as [|[| | |]| | |]; try exact I.
+    apply wps_read; [apply NRPre_read | exact I|]. intros f2.
+    destruct (snd (exec pre a (OpList DRoot) f2)) as [| | |ds1 fs1|]; try exact I.
+    apply wps_read; [apply NRPre_read | exact I|]. intros f3.
+    destruct (snd (exec pre a (OpList DRoot) f3)) as [| | |ds2 fs2|]; try exact I.
+    cbv zeta. set (id := match max_id (band_ids ds2) with Some m => m + 1 | None => 0 end).
+    cbn [FrameP.wps]. split; [exact I|]. intros f4.
+    pose proof (PJ_step a0 a (OpMkdir (DBand id)) f4 I (fun x => x) HJ) as HJ4. set (a4 := fst (exec pre a (OpMkdir (DBand id)) f4)) in *.
+    destruct (is_ok _); [|exact I].
+    cbn [FrameP.wps]. split; [exact I|]. intros f5.
+    pose proof (PJ_step a0 a4 (OpMkdir (DIndex id)) f5 I (fun x => x) HJ4) as HJ5. set (a5 := fst (exec pre a4 (OpMkdir (DIndex id)) f5)) in *.
+    destruct (is_ok _); [|exact I].
+    cbn [FrameP.wps]. split; [exact I|]. intros f6.
+    pose proof (PJ_step a0 a5 (OpWrite (PHead id) (PlHead HvOk) CreateNew) f6 I (fun x => x) HJ5) as HJ6.
+    set (a6 := fst (exec pre a5 (OpWrite (PHead id) (PlHead HvOk) CreateNew) f6)) in *.
+    destruct (is_ok _); [|exact I].
+    apply wps_read; [apply NRPre_read | exact I|]. intros f7.
+    destruct (snd (exec pre a6 (OpList DRoot) f7)) as [| | |ds5 fs5|]; try exact I.
+    destruct (existsb (fun p => fpath_eqb (fst p) PLock) fs5); [exact I|].
+    apply wps_read; [apply NRPre_read | exact I|]. intros f8.
+    destruct (snd (exec pre a6 (OpList DBlocks) f8)) as [| | |ds3 fs3|] eqn:E8; try exact I.
+    apply list_blocks_wps; [exact I|]. intros _ ex Hex.
+    apply merge_loop_wps. intros c' Hc'. cbn [w_exists]. apply In_mem_bytes. apply Hex; [exact Hc'|].
+    right. destruct HJ6 as [HB HO].
+    assert (Hd : has_dir a6 (DBlockSub (pre c')) = true).
+    { apply (proj1 HO). apply has_dir_In. apply BD. pose proof (HB c' Hc') as H0. unfold block_ok in H0.
+      rewrite H0. discriminate. }
+    pose proof (exec_read_reply pre a6 (OpList DBlocks) f8 I) as Hr. rewrite E8 in Hr.
+    assert (Hds : ds3 = children_dirs a6 DBlocks).
+    { destruct f8; cbn [exec] in E8; try discriminate;
+        (cbn [exec_ok] in E8; destruct (has_dir a6 DBlocks); cbn [snd] in E8; [inversion E8; reflexivity | discriminate]). }
+    subst ds3. unfold block_subdirs. apply in_isort_N. apply in_flat_map.
+    exists (DBlockSub (pre c')). split; [|left; reflexivity].
+    unfold children_dirs. apply filter_In. split; [apply has_dir_In; exact Hd | reflexivity].
+  Qed.
+
+  (** C14.  In every run of a backup (every source, configuration and fault list) from an
+      archive whose block files lie in their sub-directories, every write of a block file --
+      successful or not -- is issued in a state in which that block is not present. *)
+  Theorem backup_never_rewrites_present : forall c src a0 phi i c' p m rep,
+    BlocksInDirs pre a0 ->
+    nth_error (fst (fst (run pre (backup_prog pre c src) a0 phi))) i = Some (OpWrite (PBlock c') p m, rep) ->
+    exists ab, state_before pre (backup_prog pre c src) a0 phi i = Some ab /\ ~ block_ok ab c'.
+  Proof.
+    intros c src a0 phi i c' p m rep BD Hi.
+    destruct (wps_sound pre NRPre QT' _ a0 phi i _ _ (backup_wps c src a0 BD) Hi) as [ab [Hs Hp]].
+    exists ab. split; [exact Hs | exact Hp].
+  Qed.
+End NeverRewrites.
+
+(* ------------------------------------------------------------------------- *)
+(** * 9. Boolean checkers for the hypotheses, and examples (non-vacuity)      *)
+(* ------------------------------------------------------------------------- *)
+
+Fixpoint nodup_dirs_b (l : list dpath) : bool :=
+  match l with [] => true | x :: l' => negb (existsb (dpath_eqb x) l') && nodup_dirs_b l' end.
+
+Definition wfidx_b (a : arch) : bool :=
+  nodup_dirs_b (dirs a) && filesnd_b a
+  && forallb (fun p => match fst p with
+                       | PHunk n h => has_dir a (DHunkSub n (h / HUNKS_PER_SUBDIR))
+                       | PHead n | PTail n => has_dir a (DBand n)
+                       | _ => true
+                       end) (files a)
+  && forallb (fun d => match d with DHunkSub n _ => has_dir a (DIndex n) | _ => true end) (dirs a).
+
+Definition blocksindirs_b (pre : bytes -> N) (a : arch) : bool :=
+  forallb (fun p => match fst p with PBlock c => has_dir a (DBlockSub (pre c)) | _ => true end) (files a).
+
+Lemma nodup_dirs_sound l : nodup_dirs_b l = true -> NoDup l.
+Proof.
+  induction l as [|x l IH]; cbn [nodup_dirs_b]; [constructor|].
+  rewrite andb_true_iff, negb_true_iff. intros [H1 H2]. constructor; [|auto].
+  intros Hin. assert (E : existsb (dpath_eqb x) l = true).
+  { apply existsb_exists. exists x. split; [exact Hin|]. destruct (dpath_eqb_spec x x); congruence. }
+  congruence.
+Qed.
+
+Lemma get_In_files (a : arch) f : get a f <> None -> exists c, In (f, c) (files a).
+Proof.
+  unfold get. destruct (lookup f (files a)) as [c|] eqn:E; [|contradiction]. intros _.
+  destruct (lookup_Some_In _ _ _ E) as [g [Hin [-> _]]]. exists c. exact Hin.
+Qed.
+
+Lemma wfidx_b_sound a : wfidx_b a = true -> WFidx a.
+Proof.
+  unfold wfidx_b. rewrite !andb_true_iff, !forallb_forall. intros [[[H1 H2] H3] H4].
+  split; [apply nodup_dirs_sound; exact H1|]. split; [apply nodup_paths_sound; exact H2|].
+  split; [|split; [|intros n; split]].
+  - intros n h G. destruct (get_In_files a _ G) as [c Hin]. exact (H3 _ Hin).
+  - intros n s Hd. apply has_dir_In in Hd. exact (H4 _ Hd).
+  - intros G. destruct (get_In_files a _ G) as [c Hin]. exact (H3 _ Hin).
+  - intros G. destruct (get_In_files a _ G) as [c Hin]. exact (H3 _ Hin).
+Qed.
+
+Lemma blocksindirs_b_sound pre a : blocksindirs_b pre a = true -> BlocksInDirs pre a.
+Proof.
+  unfold blocksindirs_b. rewrite forallb_forall. intros H c G.
+  destruct (get_In_files a _ G) as [x Hin]. exact (H _ Hin).
+Qed.
+
+Module FrameExamples.
+  Import SafeExamples.
+
+  Definition outcome_of {R} (p : prog R) (a : arch) : outcome R := snd (run ex_pre p a []).
+  Definition l_of (o : outcome lres) : list entry := match o with Done r => l_entries r | _ => [] end.
+
+  (* the states after one and two backups are well-formed; band 0 is complete in both *)
+  Example ex_wf : wfidx_b ex_a1 = true /\ wfidx_b ex_a2 = true /\ wfidx_b ex_a3 = true
+                  /\ blocksindirs_b ex_pre ex_a2 = true.
+  Proof. vm_compute. repeat split; reflexivity. Qed.
+  Example ex_wfidx_a2 : WFidx ex_a2.
+  Proof. apply wfidx_b_sound. vm_compute. reflexivity. Qed.
+  Example ex_complete : complete ex_a2 0 /\ complete ex_a3 0 /\ complete ex_a3 1.
+  Proof. vm_compute. repeat split; reflexivity. Qed.
+
+  (* the view of band 0: two hunks *)
+  Example ex_view_band0 :
+    match view ex_a2 0%nat with
+    | Some bd => (b_head bd, b_opens bd, b_closed bd, map (fun h => match h with Some es => length es | None => 0%nat end) (b_hunks bd))
+    | None => (false, false, false, [])
+    end = (true, true, true, [2%nat; 1%nat])
+    /\ view ex_a2 1%nat = None
+    /\ lview ex_pre ex_a3 1%nat = view ex_a3 1%nat.
+  Proof. vm_compute. repeat split; reflexivity. Qed.
+
+  (* REFINEMENT, computed: the program's listing is the pure stitch of the view *)
+  Example ex_list_is_stitch :
+    outcome_of (list_prog (Specified 0) keep_all) ex_a2
+    = Done {| l_ok := true; l_entries := pstitch_keep keep_all (view ex_a2) 0%nat; l_merr := 0 |}
+    /\ length (pstitch_keep keep_all (view ex_a2) 0%nat) = 3%nat.
+  Proof. vm_compute. split; reflexivity. Qed.
+
+  (* a second backup killed while writing its first index hunk: band 1 is there, opens, is
+     not closed, holds a zero-length hunk; listing it stitches into band 0 *)
+  Definition ex_crash := final (backup 7) ex_a2 ex_phi_crash.
+  Example ex_crash_wf : WFidx ex_crash /\ head_opens ex_crash 1 = true /\ tail_closed ex_crash 1 = false.
+  Proof. split; [apply wfidx_b_sound; vm_compute; reflexivity | vm_compute; split; reflexivity]. Qed.
+  Example ex_crash_stitch :
+    l_of (outcome_of (list_prog (Specified 1) keep_all) ex_crash) = pstitch_keep keep_all (view ex_crash) 1%nat
+    /\ pstitch_keep keep_all (view ex_crash) 1%nat = pstitch_keep keep_all (view ex_a2) 0%nat
+    /\ (exists tr merr, run ex_pre (list_prog (Specified 1) keep_all) ex_crash []
+          = (tr, ex_crash, Done {| l_ok := true; l_entries := pstitch_keep keep_all (view ex_crash) 1%nat; l_merr := merr |})).
+  Proof.
+    split; [vm_compute; reflexivity|]. split; [vm_compute; reflexivity|].
+    apply list_refines; [vm_compute; reflexivity | exact (proj1 ex_crash_wf) | vm_compute; reflexivity].
+  Qed.
+
+  (* FRAME and STABILITY: the crash state, the failed run and the completed second backup
+     are states of backup runs from ex_a2; band 0 is listed and restored as before *)
+  Example ex_states :
+    In ex_crash (backup_states ex_pre ex_cfg (ex_src 7) ex_a2 ex_phi_crash)
+    /\ In ex_a3 (backup_states ex_pre ex_cfg (ex_src 7) ex_a2 []).
+  Proof.
+    split; apply in_or_app; right; left; unfold ex_crash, ex_a3, final, backup; reflexivity.
+  Qed.
+
+  Example ex_frame_thm : Frame 0 ex_a2 ex_crash /\ Frame 0 ex_a2 ex_a3 /\ SameBand ex_a2 ex_a3 0.
+  Proof.
+    assert (Hb : has_dir ex_a2 (DBand 0) = true) by (vm_compute; reflexivity).
+    split; [exact (backup_states_frame ex_pre ex_cfg (ex_src 7) ex_a2 0 ex_phi_crash _ Hb (proj1 ex_states))|].
+    split; [exact (backup_states_frame ex_pre ex_cfg (ex_src 7) ex_a2 0 [] _ Hb (proj2 ex_states))|].
+    apply (backup_same_band ex_pre 0 ex_a2 Hb ex_cfg (ex_src 7) []).
+  Qed.
+
+  Example ex_frame_not_trivial : ~ Frame 1 ex_a2 ex_a3.
+  Proof. intros [H _]. vm_compute in H. discriminate H. Qed.
+
+  Example ex_listing_stable_thm :
+    outcome_of (list_prog (Specified 0) keep_all) ex_crash = outcome_of (list_prog (Specified 0) keep_all) ex_a2
+    /\ outcome_of (list_prog (Specified 0) keep_all) ex_a3 = outcome_of (list_prog (Specified 0) keep_all) ex_a2.
+  Proof.
+    assert (Hh : get ex_a2 PHeader = Some (Good PlJson)) by (vm_compute; reflexivity).
+    split.
+    - exact (proj1 (complete_band_listing_stable ex_pre ex_cfg (ex_src 7) keep_all ex_a2 0 Hh ex_wfidx_a2
+                      (proj1 ex_complete) ex_phi_crash _ (proj1 ex_states))).
+    - exact (proj1 (complete_band_listing_stable ex_pre ex_cfg (ex_src 7) keep_all ex_a2 0 Hh ex_wfidx_a2
+                      (proj1 ex_complete) [] _ (proj2 ex_states))).
+  Qed.
+
+  Example ex_listing_stable_computed :
+    outcome_of (list_prog (Specified 0) keep_all) ex_a3 = outcome_of (list_prog (Specified 0) keep_all) ex_a2
+    /\ l_of (outcome_of (list_prog (Specified 0) keep_all) ex_a3) = band_entries ex_a2 0
+    /\ l_of (outcome_of (list_prog (Specified 1) keep_all) ex_a3) <> l_of (outcome_of (list_prog (Specified 0) keep_all) ex_a3).
+  Proof. vm_compute. repeat split; try reflexivity. discriminate. Qed.
+
+  Example ex_restore_stable_thm :
+    outcome_of (restore_prog (Specified 0) keep_all) ex_crash = outcome_of (restore_prog (Specified 0) keep_all) ex_a2
+    /\ outcome_of (restore_prog (Specified 0) keep_all) ex_a3 = outcome_of (restore_prog (Specified 0) keep_all) ex_a2
+    /\ (match outcome_of (restore_prog (Specified 0) keep_all) ex_a3 with
+        | Done r => map (fun f => match f with RFile e o => (e_apath e, o) end) (r_files r)
+        | _ => []
+        end) = [([47], Some []); ([47;97], Some [1;2]); ([47;98], Some [1;2;3;4;5;6])].
+  Proof.
+    assert (HI : AInv ex_a2) by (apply ainv_b_sound; vm_compute; reflexivity).
+    assert (Hb : has_dir ex_a2 (DBand 0) = true) by (vm_compute; reflexivity).
+    split; [exact (restore_stable ex_pre ex_cfg (ex_src 7) keep_all ex_a2 0 HI Hb ex_phi_crash _ (proj1 ex_states))|].
+    split; [exact (restore_stable ex_pre ex_cfg (ex_src 7) keep_all ex_a2 0 HI Hb [] _ (proj2 ex_states))|].
+    vm_compute. reflexivity.
+  Qed.
+
+  (* LatestClosed: hypotheses hold of ex_a3, the answer is band 1; in the crash state it is
+     band 0 (band 1 has no tail) *)
+  Example ex_latest :
+    has_dir ex_a3 DRoot = true
+    /\ forallb (fun d => match d with DBand b => head_opens ex_a3 b | _ => true end) (dirs ex_a3) = true
+    /\ l_of (outcome_of (list_prog LatestClosed keep_all) ex_a3) = l_of (outcome_of (list_prog (Specified 1) keep_all) ex_a3)
+    /\ l_of (outcome_of (list_prog LatestClosed keep_all) ex_crash) = l_of (outcome_of (list_prog (Specified 0) keep_all) ex_a2).
+  Proof. vm_compute. repeat split; reflexivity. Qed.
+
+  (* the hypothesis "every head opens" is needed: a zero-length BANDHEAD in the newest band
+     makes LatestClosed fail although band 0 is complete (Band::open error propagated) *)
+  Definition ex_bad_head : arch := {| dirs := dirs ex_a3; files := set_file (PHead 1) Empty (files ex_a3) |}.
+  Example ex_latest_needs_heads :
+    outcome_of (list_prog LatestClosed keep_all) ex_bad_head = Done lfail /\ complete ex_bad_head 0.
+  Proof. vm_compute. repeat split; reflexivity. Qed.
+
+  (* C14: the second backup writes block [5;7] only; the blocks [1;2], [1;2;3;4] present in
+     ex_a2 are not written again; instance of the theorem for the faulty run *)
+  Example ex_c14_computed :
+    filter (fun x => match fst x with OpWrite (PBlock _) _ _ => true | _ => false end) (trace (backup 7) ex_a2 [])
+    = [(OpWrite (PBlock [5;7]) (PlBlock [5;7]) CreateNew, ROk)].
+  Proof. vm_compute. reflexivity. Qed.
+  Example ex_c14_thm :
+    exists ab, state_before ex_pre (backup 7) ex_a2 ex_phi_fail 20 = Some ab /\ ~ block_ok ab [5;7].
+  Proof.
+    eapply (backup_never_rewrites_present ex_pre ex_cfg (ex_src 7) ex_a2 ex_phi_fail 20);
+      [apply blocksindirs_b_sound; vm_compute; reflexivity | vm_compute; reflexivity].
+  Qed.
+
+  (* the hypothesis [BlocksInDirs] is needed: a block file outside any listed directory is
+     not seen by the listing, and the backup issues a write for it (refused by the store) *)
+  Definition ex_stray : arch := {| dirs := dirs ex_a1; files := files ex_a1 ++ [(PBlock [1;2], Good (PlBlock [1;2]))] |}.
+  Theorem never_rewrites_without_dirs_refuted :
+    exists pre c src a0 phi i c' p m rep ab,
+      nth_error (fst (fst (run pre (backup_prog pre c src) a0 phi))) i = Some (OpWrite (PBlock c') p m, rep)
+      /\ state_before pre (backup_prog pre c src) a0 phi i = Some ab /\ block_ok ab c'.
+  Proof.
+    exists ex_pre, ex_cfg, (ex_src 6), ex_stray, [], 10%nat, [1;2], (PlBlock [1;2]), CreateNew, (RErr EAlreadyExists).
+    eexists. vm_compute. repeat split; reflexivity.
+  Qed.
+End FrameExamples.
+
+Print Assumptions snext_refines.
+Print Assumptions list_refines_lview.
+Print Assumptions lview_eq_view.
+Print Assumptions list_refines.
+Print Assumptions list_complete_band.
+Print Assumptions list_unopenable.
+Print Assumptions backup_frame.
+Print Assumptions backup_same_band.
+Print Assumptions frame_view.
+Print Assumptions view_frame.
+Print Assumptions low_run.
+Print Assumptions listing_stable.
+Print Assumptions complete_band_listing_stable.
+Print Assumptions restore_char.
+Print Assumptions restore_stable.
+Print Assumptions complete_band_restore_stable.
+Print Assumptions latest_closed_is_newest.
+Print Assumptions backup_never_rewrites_present.
+Print Assumptions FrameExamples.never_rewrites_without_dirs_refuted.
